@@ -19,7 +19,7 @@ import (
 var hdrFields = []string{"parent", "nonce", "timestamp", "commitment"}
 var hdrShapes = []string{"drop", "swap", "dup", "extra"}
 var blkFields = []string{"parent", "nonce", "timestamp", "commitment", "payout-value", "payout-addr", "extra-payout", "txn-tamper", "v2-height", "drop-v2"}
-var blkShapes = []string{"drop-last", "drop", "swap", "sibling", "error"}
+var blkShapes = []string{"drop-last", "truncate", "extend", "extend-dup", "drop", "swap", "sibling", "error"}
 var cpFields = []string{"no-v2", "sibling", "txn-tamper", "payout-value", "v2-height", "state-other", "state-tamper", "missing"}
 var relayHeaderKinds = []string{"unknown-parent", "low-work", "side", "attach"}
 var relayOutlineKinds = []string{"unknown-parent", "low-work", "side", "side-known", "attach-valid", "attach-bad-height", "attach-bad-time", "missing-right", "missing-wrong", "missing-fail"}
@@ -192,6 +192,16 @@ func buildAttack(s Scen, t *chaingen.Tree, ts *terms, v0, h *chaingen.Node) *att
 			return bs, rem, nil
 		}
 	case "blk-shape":
+		if s.Field == "extend" {
+			// the header answer stops short of the tip (honestly reporting what remains), so that valid next
+			// blocks exist to pad the block answer with
+			l.mutHeaders = func(index types.ChainIndex, hs []types.BlockHeader, rem uint64) ([]types.BlockHeader, uint64, error) {
+				if cut := 1 + s.K%2; len(hs) > cut+1 {
+					return hs[:len(hs)-cut], rem + uint64(cut), nil
+				}
+				return hs, rem, nil
+			}
+		}
 		l.mutBlocks = func(hist []types.BlockID, bs []types.Block, rem uint64) ([]types.Block, uint64, error) {
 			if s.Field == "error" {
 				return nil, 0, errStall
@@ -200,6 +210,26 @@ func buildAttack(s Scen, t *chaingen.Tree, ts *terms, v0, h *chaingen.Node) *att
 				return bs, rem, nil
 			}
 			switch s.Field {
+			case "extend":
+				// more blocks than requested: the requested ones, exactly, followed by the valid next ones
+				if p := l.pos(bs[len(bs)-1].ID()); p >= 0 {
+					asked := len(bs)
+					for _, n := range l.chain[p+1:] {
+						if len(bs) >= asked+1+s.K%2 {
+							break
+						}
+						bs = append(bs, chaingen.DeepCopyBlock(n.Block))
+					}
+				}
+			case "extend-dup":
+				// more blocks than requested: the requested ones followed by a repetition of the last
+				bs = append(bs, chaingen.DeepCopyBlock(bs[len(bs)-1]))
+			case "truncate":
+				if len(bs) > 2 {
+					bs = bs[:len(bs)-2]
+				} else {
+					bs = bs[:len(bs)-1]
+				}
 			case "drop-last":
 				bs = bs[:len(bs)-1]
 			case "drop":
